@@ -35,7 +35,11 @@ def multi_proc_programs(rng, n):
     out = []
     for k in range(n):
         np_ = rng.randint(1, 8)
-        names = ['q%d' % i for i in range(np_)]
+        # names of every length class: short, around the width of the trace's label column (12), long, and pairs sharing a long prefix
+        pool = ['q', 'p2', 'fn', 'accumulate', 'accumulator1', 'update_totals', 'a_rather_long_procedure_name', 'update_running_checksum_of_buffer_a',
+                'update_running_checksum_of_buffer_b', 'x' * 40, 'Zz_9', 'step']
+        rng.shuffle(pool)
+        names = [pool[i] if rng.random() < 0.6 else 'q%d' % i for i in range(np_)]
         procs = {}
         for i, nm in enumerate(names):
             body = [X.ass(X.var('l'), X.bi('+', X.var('p'), X.num(rng.choice([1, 300, 4660, 70000, -5, 65535]))))]
